@@ -14,7 +14,18 @@ import random
 from ..core import unjson
 from ..deviations import active, tla_set
 from ..tlc import MachineryError, SPECS, require_coverage, run_tlc, write_cfg
+from ..observe import lexrun
 from ..observe.lexrun import model_tokens, real_tokens
+
+
+class TooManyHangs(Exception):
+    pass
+
+
+def breaker():
+    """a tokenizer that does not terminate on many inputs would make the replay take hours: stop after 25 of them"""
+    if lexrun.HANGS >= 25:
+        raise TooManyHangs()
 
 SPEC = os.path.join(SPECS, "lex", "MC_PSLex.tla")
 TRACE_SPEC = os.path.join(SPECS, "lex", "PSLexTrace.tla")
@@ -27,10 +38,10 @@ CLASS_MEMBERS = {32: b"\t \x0b", 49: b"0234567", 56: b"89", 97: b"cdeACDE", 98: 
 
 CONFIGS = {
     "quick": [("Alpha24", 3, (1, 2, 4)), ("AlphaString", 4, (1, 2, 3, 5)), ("AlphaHexName", 4, (1, 2, 3, 5)),
-              ("AlphaNumKw", 4, (1, 2, 3, 5)), ("AlphaComment", 5, (1, 2, 3, 6)), ("AlphaEsc", 5, (1, 2, 3, 6))],
+              ("AlphaNumKw", 4, (1, 2, 3, 5)), ("AlphaComment", 5, (1, 2, 3, 6)), ("AlphaEsc", 5, (1, 2, 3, 6)), ("AlphaOct", 5, (1, 2, 3, 6))],
     "thorough": [("Alpha24", 4, (1, 2, 5)), ("AlphaString", 5, (1, 2, 3, 6)), ("AlphaHexName", 5, (1, 2, 3, 6)),
                  ("AlphaNumKw", 5, (1, 2, 3, 6)), ("AlphaComment", 6, (1, 2, 3, 7)),
-                 ("AlphaString", 6, (2, 7)), ("AlphaEsc", 7, (1, 2, 3, 8))],
+                 ("AlphaString", 6, (2, 7)), ("AlphaEsc", 7, (1, 2, 3, 8)), ("AlphaOct", 7, (1, 2, 3, 8))],
 }
 
 
@@ -41,7 +52,7 @@ def check_real(ck, data, results, model=None, origin=""):
     bad = False
     for B, (toks, err) in sorted(results.items()):
         if err is not None:
-            key = "no-progress" if err == "NoProgress" else "error:" + err
+            key = "no-progress" if err == "NoProgress" else "does-not-terminate" if err == "Hang" else "error:" + err
             bad |= ck.violation(key, "tokenizer signalled %s on %r (BUFSIZ=%s)" % (err, data[:60], B),
                                 {"data": data, "bufsiz": B, "origin": origin, "observed_error": err})
             continue
@@ -83,6 +94,7 @@ def direction_a(ck, dev):
             need = {"Alpha24": [a for a in ACTIONS if a != "AStringLF"],
                         "AlphaComment": ["ARefill", "AFlush", "AMain", "AComment", "AString", "AKeyword"],
                         "AlphaEsc": ["ARefill", "AFlush", "AMain", "AString", "AString1", "AStringLF", "AKeyword"],
+                        "AlphaOct": ["ARefill", "AFlush", "AMain", "AString", "AString1", "ANumber"],
                         "AlphaString": ["ARefill", "AFlush", "AMain", "AString", "AString1", "ANumber", "AKeyword"],
                         "AlphaHexName": ["ARefill", "AFlush", "AMain", "ALiteral", "ALitHex", "AWOpen", "AWClose", "AHexStr"],
                         "AlphaNumKw": ["ARefill", "AFlush", "AMain", "ANumber", "AFloat", "AKeyword", "AComment", "ALiteral"]}[alpha]
@@ -97,6 +109,10 @@ def direction_a(ck, dev):
                 data = bytes(r["d"])
                 B = r["b"]
                 toks, err = real_tokens(data, B)
+                if err == "Hang":
+                    ck.violation("does-not-terminate", "nexttoken() did not return on %r (BUFSIZ=%s)" % (data, B),
+                                 {"data": data, "bufsiz": B, "origin": "%s^%d" % (alpha, maxlen), "observed_error": err})
+                    breaker()
                 n += 1
                 groups.setdefault(data, {})[B] = (toks, err)
                 mt = model_tokens(r["o"])
@@ -268,6 +284,13 @@ def _validate_batch(ck, todo, tf, cfg):
 
 
 def run(ck):
+    try:
+        _run(ck)
+    except TooManyHangs:
+        ck.note("replay stopped early: the tokenizer did not terminate on %d inputs" % lexrun.HANGS)
+
+
+def _run(ck):
     dev = active("lex")
     ck.extra["deviations_modelled_as_coded"] = dev
     ck.rule = ("A: every string over one representative per lexical byte class (and per-context sub-alphabets) up to the "
